@@ -442,23 +442,26 @@ func (e *Exporter) collectCSVColumns(chunks []*Chunk) []string {
 	columns = append(columns, "chunk_index", "document_title", "page_start", "page_end",
 		"section_title", "has_table", "has_list", "has_image")
 
-	// Collect metadata columns from all chunks
+	// Collect metadata columns from all chunks. Rows only carry metadata when
+	// IncludeMetadata is set, so without it there are no metadata columns.
 	metadataKeys := make(map[string]bool)
-	for _, chunk := range chunks {
-		metaMap := chunkMetadataToMap(chunk.Metadata)
+	if e.config.IncludeMetadata {
+		for _, chunk := range chunks {
+			metaMap := chunkMetadataToMap(chunk.Metadata)
 
-		var meta map[string]interface{}
-		if e.config.FlattenMetadata {
-			meta = flattenMetadata(metaMap, "")
-		} else {
-			meta = metaMap
-		}
+			var meta map[string]interface{}
+			if e.config.FlattenMetadata {
+				meta = flattenMetadata(metaMap, "")
+			} else {
+				meta = metaMap
+			}
 
-		filtered := e.filterMetadata(meta)
-		for key := range filtered {
-			// Skip keys already in standard columns
-			if !isStandardColumn(key) {
-				metadataKeys[key] = true
+			filtered := e.filterMetadata(meta)
+			for key := range filtered {
+				// Skip keys already in standard columns
+				if !isStandardColumn(key) {
+					metadataKeys[key] = true
+				}
 			}
 		}
 	}
